@@ -62,7 +62,7 @@ class Runner:
         ck, st = self.ck, self.st
         tag = "%s:%s" % (inst.ckind.split(":")[0], "true" if inst.pkind == "none" else "perturbed")
         p2, why = X.try_replace(inst)
-        res = {"accepted": p2 is not None, "diffs": [], "verdict": None}
+        res = {"accepted": p2 is not None, "diffs": [], "verdict": None, "after": p2}
         if p2 is None:
             st.inc(stream + ":rejected")
             st.inc(stream + (":true-rejected" if inst.pkind == "none" else ":perturbed-rejected"))
@@ -88,7 +88,8 @@ class Runner:
         # (b) validator
         try:
             call = X.new_call_node(p2, inst)
-            verdict, job = M.validate_case(self.model, inst.nodes(), call)
+            nbody = len(inst.callee._loopir_proc.body)
+            verdict, job = M.validate_case(self.model, inst.nodes()[:nbody], call)
         except export.Unsupported as e:
             verdict, job = "no unsupported-export " + str(e), {}
         res["verdict"] = verdict
@@ -155,7 +156,7 @@ class Runner:
         n = len(callee._loopir_proc.body)
         try:
             cur = target.find(c["block"])
-            blk = cur.as_block().expand(0, n - 1)
+            blk = cur.as_block().expand(0, n - 1 + c.get("extra", 0))
         except Exception as e:
             ck.broken_obligation("fixed-case-block-not-found:" + c["name"], str(e))
             return None
@@ -163,7 +164,19 @@ class Runner:
         if c["kind"] in ("witness", "regress"):
             ckind = c["kind"] if c["kind"] == "regress" else "witness"
         inst = instance_of_cursor(target, blk, callee, ckind, c["pkind"], c["src"])
-        return self.attempt(inst, stream, big_inputs=True, expect=c.get("expect"), name=c["name"])
+        res = self.attempt(inst, stream, big_inputs=True, expect=c.get("expect"), name=c["name"])
+        if c.get("extra") and res["accepted"]:
+            p2 = res["after"]
+            par_before = getattr(G.node_at(target._loopir_proc, inst.parent_path), inst.attr)
+            par_after = getattr(G.node_at(p2._loopir_proc, inst.parent_path), inst.attr)
+            if len(par_after) != len(par_before) - n + 1:
+                ck.violation("replace:regress:longer-block:statements-dropped",
+                             dict(inst.describe(), after=str(p2)),
+                             "replace with a block cursor longer than the callee body removed %d statement(s) it did not unify"
+                             % (len(par_before) - n + 1 - len(par_after)))
+            elif not res["diffs"]:
+                ck.corr_agree(stream)
+        return res
 
     # ------------------------------------------------------------------ x86 kernels
     def x86(self, deadline=None):
@@ -213,7 +226,9 @@ class Runner:
             res = self.attempt(inst, "search:generated")
             if not res["accepted"]:
                 st.inc("generated:true-instance-rejected")
-            for pkind, q in G.perturbations(inst.p, inst.parent_path, inst.attr, inst.lo, inst.hi, ck.rng, limit=ck.n(3, 5)):
+            guard = c["kind"].startswith("guard")
+            for pkind, q in G.perturbations(inst.p, inst.parent_path, inst.attr, inst.lo, inst.hi, ck.rng,
+                                            limit=ck.n(5, 8) if guard else ck.n(3, 5), prefer=("cmp", "bool") if guard else None):
                 pi = X.Instance(q, inst.parent_path, inst.attr, inst.lo, inst.hi, callee, c["kind"], pkind, src)
                 self.attempt(pi, "search:generated")
         st.inc("generated:true-instances", made)
@@ -382,7 +397,10 @@ def run(ck: common.Check):
         for c in CASES.REGRESS:
             res = r.fixed(c, "search:regress")
             if res is not None:
-                st.inc("regress:%s:%s" % (c["name"], "rejected" if not res["accepted"] else "ACCEPTED"))
+                if c.get("expect") == "accepted-equal":
+                    st.inc("regress:%s:%s" % (c["name"], "accepted-and-equal" if res["accepted"] and not res["diffs"] else "REJECTED-OR-DIFFERENT"))
+                else:
+                    st.inc("regress:%s:%s" % (c["name"], "rejected" if not res["accepted"] else "ACCEPTED"))
         for c in CASES.INLINE_PROBES:
             r.inline_probe(c)
         ck.log("witnesses %.1fs" % (time.time() - t0))
